@@ -291,6 +291,58 @@ def removal_order_cases(ctx, n, extra=()):
                 break
 
 
+def file_order_cases(ctx, n, extra=()):
+    """definitions spread over several input files (.ff and .itp), which do not define the same thing: gen_params -f a b and
+    -f b a write the same molecule (atoms, interactions, exclusions)"""
+    import contextlib
+    import io
+    import pathlib
+    import polyply.src.gen_itp as gi
+    from harness import systems
+    rng = ctx.rng
+    todo = list(extra)
+    for _ in range(n):
+        k = rng.randint(4, 6)
+        todo.append({'k': k, 'nrexcl_a': rng.choice([2, 3]), 'pair': [1, rng.randint(k - 1, k)], 'extra': rng.choice(['pairs', 'exclusions', 'pairs']),
+                     'seq': rng.choice([['AAA:1', 'BBB:1'], ['AAA:2', 'BBB:1'], ['BBB:1', 'AAA:1']])})
+    for case in todo:
+        k = case['k']
+        ff = ['[ moleculetype ]', f"AAA {case['nrexcl_a']}", '[ atoms ]'] + [f'{i} P1 1 AAA a{i} {i} 0.0 72' for i in range(1, k + 1)] + \
+             ['[ bonds ]'] + [f'a{i} a{i + 1} 1 0.3 1000' for i in range(1, k)] + \
+             [f"[ {case['extra']} ]", f"a{case['pair'][0]} a{case['pair'][1]}" + (' 1' if case['extra'] == 'pairs' else '')] + \
+             ['[ link ]', 'resname "AAA|BBB"', '[ bonds ]', f'a{k} +b1 1 0.35 1250', '[ link ]', 'resname "AAA|BBB"', '[ bonds ]', f'b2 +a1 1 0.35 1250',
+              '[ link ]', 'resname "AAA"', '[ bonds ]', f'a{k} +a1 1 0.36 1300']
+        itp = ['[ moleculetype ]', 'BBB 1', '[ atoms ]', '1 P2 1 BBB b1 1 0.0 72', '2 P2 1 BBB b2 2 0.0 72', '[ bonds ]', '1 2 1 0.3 1000']
+        bodies = {}
+        with systems.Workdir() as wd:
+            pathlib.Path(wd, 'a.ff').write_text('\n'.join(ff) + '\n')
+            pathlib.Path(wd, 'b.itp').write_text('\n'.join(itp) + '\n')
+            for order in (['a.ff', 'b.itp'], ['b.itp', 'a.ff']):
+                out = pathlib.Path(wd, 'o_' + order[0].replace('.', '_') + '.itp')
+                sink = io.StringIO()
+                try:
+                    with contextlib.redirect_stderr(sink), contextlib.redirect_stdout(sink):
+                        gi.gen_params(name='x', outpath=out, inpath=[pathlib.Path(wd, o) for o in order], lib=None, seq=list(case['seq']))
+                    sec, rows = None, []
+                    for ln in out.read_text().split('\n'):
+                        ln = ln.split(';')[0].strip()
+                        if ln.startswith('['):
+                            sec = ln
+                        elif ln:
+                            rows.append((sec, tuple(ln.split())))
+                    bodies[tuple(order)] = sorted(rows)
+                except Exception as exc:  # noqa
+                    bodies[tuple(order)] = f'{type(exc).__name__}: {exc}'
+        ctx.case(('file_order', json.dumps(case, sort_keys=True)), nontrivial=True, sample=case)
+        ctx.feature('definitions_spread_over_ff_and_itp_files_in_both_orders')
+        a, b = bodies[('a.ff', 'b.itp')], bodies[('b.itp', 'a.ff')]
+        if a != b:
+            diff = (a, b) if isinstance(a, str) or isinstance(b, str) else sorted(set(a) ^ set(b))[:6]
+            ctx.violation('spec', f"C13 fails on the implementation: gen_params -f a.ff b.itp and -f b.itp a.ff write different molecules for -seq {case['seq']} "
+                          f"(block AAA with nrexcl {case['nrexcl_a']} and a [ {case['extra']} ] entry in a.ff, block BBB in b.itp); rows that differ: {diff}",
+                          {'file_order': case})
+
+
 def run(ctx):
     ctx.correspondences += ['metamorphic: relabelled / re-inserted / re-oriented residue graph through MapToMolecule + ApplyLinks',
                             'metamorphic: blocks and non-conflicting links listed in another order',
@@ -298,6 +350,7 @@ def run(ctx):
                             'gen_params histories in one process vs fresh processes; .json graphs with arbitrary node ids']
     rng = ctx.rng
     removal_order_cases(ctx, ctx.n(8, 80))
+    file_order_cases(ctx, ctx.n(6, 40))
     n = 0
     corpus = [c for _, c in core.corpus_cases('C13')]
     for k in range(len(corpus) + ctx.n(120, 1200)):
@@ -366,6 +419,11 @@ def search(ctx):
 
 def replay(ctx, data):
     print(json.dumps(data, indent=1, default=str)[:3000])
+    if 'file_order' in data:
+        before = len(ctx.violations)
+        file_order_cases(ctx, 0, extra=[data['file_order']])
+        print('replay:', ctx.violations[-1]['what'][:400] if len(ctx.violations) > before else 'same molecule for both orders of the input files')
+        return 1 if len(ctx.violations) > before else 0
     if 'removal_order' in data:
         before = len(ctx.violations)
         removal_order_cases(ctx, 0, extra=[data['removal_order']])
